@@ -8,7 +8,7 @@ PID = 'C01'
 TAGS = ['abegin', 'awaited', 'spawn', 'now', 'tick', 'senter', 'sexit']
 RULE = ('seeded random programs of 1-4 activities mixing delays, `>=`/`==`/`<` date conditions (equal, zero, past, now, future '
         'dates), instant/eternity, `do(after=/at=)`, nested (until-)scopes with deadlines, cancels, flags; start times 0, 1/2, 1, '
-        '-1; crowds of 6-12 activities with distinct dates requested in arbitrary order; one `time + d` object kept in a variable and awaited by several activities at different times; exact rational times; plus a float-time profile with non-dyadic dates (judge C01f: dates only); non-trivial = at '
+        '-1; crowds of 6-12 activities with distinct dates requested in arbitrary order; one `time + d` object kept in a variable and awaited by several activities at different times; programs shifted to clock values near 2**34; exact rational times; plus a float-time profile with non-dyadic dates (judge C01f: dates only); non-trivial = at '
         'least 3 completed timed waits')
 
 PROFILE = {'flags': 2, 'depth': 3, 'until': 0.6, 'starts': [0, 0, F(1, 2), 1, -1, -2], 'rare_atoms': True,
@@ -113,6 +113,9 @@ def run(tier, seed, drv):
             st.check(crowd_scenario(rng), nontrivial=nontrivial, judge_extra=[('C07', 'user-errors')])
         elif i % 8 == 5:
             st.check(shared_delay(rng), nontrivial=nontrivial, judge_extra=[('C07', 'user-errors')])
+        elif i % 8 == 6:
+            # the same kind of program far from the origin of the clock (dates near 2**34)
+            st.check(gen.shift_scenario(time_scenario(rng), 2 ** 34), nontrivial=nontrivial, judge_extra=[('C07', 'user-errors')])
         else:
             st.check(time_scenario(rng), nontrivial=nontrivial, judge_extra=[('C07', 'user-errors')])
     return st.finish()
